@@ -255,7 +255,9 @@ def bind_finish(ctx, summary, cases, sample, terms, refs, bad_model, bad_spec):
             if not same:
                 py_dis += 1
                 if name == "impl":
-                    key = "cpython:%s->%s:%s" % (p.get("err", "ok"), side.get("err", "ok"), call_class(c))
+                    key = "cpython:%s->%s:%s" % (p.get("err", "ok"), side.get("err", "ok").split(":")[0], call_class(c))
+                    if len([f for f in ctx.findings if f.key.startswith("cpython:")]) >= 8:
+                        continue
                     ctx.finding(key, "%s ; %s : CPython 3 gives %s, starlark-go gives %s" % (c["def"], c["src"], what(p), what(side)), c)
                 elif c["kind"] != "mismatch":
                     ctx.broken("spec-vs-cpython:C08.Spec", "%s ; %s : CPython 3 gives %s, the specification gives %s" % (c["def"], c["src"], what(p), what(side)))
@@ -343,7 +345,7 @@ Definition spec_ok (c : case) : bool :=
   end.
 """
 MARK = {"plain": "MPlain", "opt": "MOpt", "optnone": "MOptNone"}
-KIND = {"value": "KValue", "string": "KString", "bool": "KBool", "int": "KInt", "int8": "KInt8", "float": "KFloat",
+KIND = {"value": "KValue", "string": "KString", "bool": "KBool", "int": "KInt", "int8": "KInt8", "uint8": "KUint8", "float": "KFloat",
         "list": "KList", "dict": "KDict", "callable": "KCallable", "iterable": "KIterable"}
 VT = {"none": "TNone", "bool": "TBool", "float": "TFloat", "string": "TString", "list": "TList", "dict": "TDict",
       "tuple": "TTuple", "func": "TFunc"}
@@ -440,7 +442,7 @@ def unpack_finish(ctx, summary, terms, refs, bad_model, bad_spec):
         "unpack_distribution": summary["dist"], "unpack_fraction": summary["frac"], "unpack_coq_cases": len(terms),
         "unpack_model_mismatches": len(bad_model), "unpack_spec_mismatches": len(bad_spec),
         "unpack_go_spec_mismatches": summary["mismatches"],
-        "unpack_rule": "all parameter lists of <=3 parameters x marker (name, name?, name??) x target kind (10 kinds for the first parameter, 6 for the others; quick: a seeded 1% of the lists; thorough: all lists) x calls with 0..4 positional arguments, every subset of declared names plus an undeclared one as keywords (two orders), without and with a duplicated keyword (first, last and undeclared name), argument types drawn (seeded) from None/bool/small int/large int/2^70/float/string/list/dict/tuple/function, half of the time a type the parameter accepts; UnpackPositionalArgs: all kind lists <=3 x min x 0..4 arguments x with/without keywords. Targets are pre-filled with sentinels and read back.",
+        "unpack_rule": "all parameter lists of <=3 parameters x marker (name, name?, name??) x target kind (11 kinds for the first parameter incl. an unsigned one, 6 for the others; quick: a seeded 1% of the lists; thorough: all lists) x calls with 0..4 positional arguments, every subset of declared names plus an undeclared one as keywords (two orders), without and with a duplicated keyword (first, last and undeclared name), argument types drawn (seeded) from None/bool/small int/large int/negative int/2^70/float/string/list/dict/tuple/function, half of the time a type the parameter accepts; UnpackPositionalArgs: all kind lists <=3 x min x 0..4 arguments x with/without keywords. Targets are pre-filled with sentinels and read back.",
         "unpack_samples": [ucase_src(c) + " -> " + json.dumps(c["obs"]) for c in refs[:3]],
     }
 
